@@ -442,7 +442,7 @@ func (m *Model) eval(n *N, env *MEnv) res {
 				}
 			} else if len(n.Keys) > i && n.Keys[i] != nil {
 				// computed key (slots in the key only: generator invariant)
-				if HasSlot(e) {
+				if HasSlot(e) && HasSlot(n.Keys[i]) {
 					return m.giveUp("object pair with slots on both sides")
 				}
 				k := m.ev("obj/key", n.Keys[i], env)
@@ -694,6 +694,12 @@ func (m *Model) eval(n *N, env *MEnv) res {
 		return m.giveUp("unknown try accessor")
 	case KNative:
 		return m.nativeCall(n, env)
+	case KPin:
+		v, ok := env.get(n.Str)
+		if !ok {
+			return m.giveUp("unbound pinned variable " + n.Str)
+		}
+		return norm(v)
 	case KAssignE:
 		// `(name := e)` inside an expression: the value of e, bound in the current scope
 		r := m.ev("assign/rhs", n.A, env)
